@@ -75,6 +75,11 @@ class Kernel:
     def __init__(self, ctx, qual, cls_name=None, inline_foreign=False):
         self.ctx = ctx
         self.func = ctx.func(qual)
+        if inline_foreign:
+            # optional parameters that the solver fills in (a table computed once per pass, a tolerance) are read in the
+            # call context; an optional parameter that nobody passes is its default
+            from .ctxbind import specialise
+            self.func = specialise(ctx, self.func)
         # node kernels: small methods of the successor objects are judged by content (inline_foreign)
         self.sx = SymX(ctx, self.func, cls_name, inline_foreign=inline_foreign).run()
         self.ret = self.sx.ret
@@ -188,7 +193,8 @@ class Kernel:
             fo = self._classified(L.id).get(t[2])
             if fo is None or fo.kind != "COLLECT" or L.init.get(t[2]) != ("list", ()):
                 return None
-            return self._compose(L, L.filter, fo.term, depth)
+            own = getattr(fo, "own_filter", None)
+            return self._compose(L, L.filter if own is None else simp(("and", (L.filter, own))), fo.term, depth)
         return None
 
     def _compose(self, L, flt, elt, depth):
@@ -410,7 +416,8 @@ class Kernel:
             if getattr(k, "first_filter", None) is not None:
                 k.first_filter = k.filter
             return k
-        k = KFold(kind=fo.kind, source=self._src(loop), filter=self.canon(loop.filter, loop.id), whole=loop.whole,
+        own = getattr(fo, "own_filter", None)
+        k = KFold(kind=fo.kind, source=self._src(loop), filter=self.canon(loop.filter if own is None else simp(("and", (loop.filter, own))), loop.id), whole=loop.whole,
                   has_break=loop.has_break, has_return=loop.has_return, loop=loop, var=v)
         # a filtered source folds into the filter
         if isinstance(k.source, tuple) and k.source and k.source[0] == "filtered":
